@@ -103,9 +103,12 @@ func vAgentGen(o *vOut, r *vRand, thorough bool, args []string, emit func(string
 		case "C05", "C20":
 			singles = 2
 		}
-		if g.r.intn(10) < singles {
+		switch {
+		case (focus == "C20" && g.r.chance(1, 4)) || (focus == "" && g.r.chance(1, 25)) || (focus == "C06" && g.r.chance(1, 10)):
+			g.renomPrflx()
+		case g.r.intn(10) < singles:
 			g.single()
-		} else {
+		default:
 			g.double()
 		}
 	}
@@ -606,4 +609,71 @@ func (g *vGenSess) peerAct(addrA, net0, nrem, roleA int) {
 		spec += fmt.Sprintf(",nom=%d", 1+r.intn(6))
 	}
 	g.op("inject A %d %d %s", addrA, src, spec)
+}
+
+// renomPrflx: a renomination that reaches the controlled side on a pair whose remote is still
+// peer-reflexive (the controlling side's second address was not signalled yet), with the signalled
+// candidate arriving at a random point around the deferred nomination's own check.
+func (g *vGenSess) renomPrflx() {
+	r := g.r
+	g.hasB = true
+	g.o.stat("sess.renomprflx")
+	g.op("new renom=1,tb=9,u=uA0,p=pA0%s tb=5,u=uB0,p=pB0%s", []string{"", ",ka=0", ",ci=50"}[r.intn(3)], []string{"", ",ucp=1", ",pw=0"}[r.intn(3)])
+	x1, x2, y := 16, 32, 176
+	p1, p2 := 2130706431, []int{2130706430, 100, 2130706431}[r.intn(3)]
+	g.op("addlocal A 1 0 %d %d -", x1, p1)
+	g.op("addlocal A 1 0 %d %d -", x2, p2)
+	g.op("addlocal B 1 0 %d %d -", y, g.prio())
+	g.op("addremote A 1 0 %d %d -", y, g.prio())
+	g.op("addremote B 1 0 %d %d -", x1, p1)
+	g.op("start A 1 uB0 pB0")
+	g.op("start B 0 uA0 pA0")
+	for i := 0; i < 6+r.intn(6); i++ {
+		g.op("adv %d", []int{20, 50, 100}[r.intn(3)])
+		for g.inflight > 0 {
+			// keep A's checks from x2 away from B for now (drop them) so that x2 stays unknown to B
+			g.op("deliver 0")
+			g.inflight--
+		}
+	}
+	signalled := false
+	v := 1 + r.intn(3)
+	for i := 0; i < 10+r.intn(14); i++ {
+		switch x := r.intn(10); {
+		case x < 2:
+			g.op("renom A %d 0 %d", []int{x1, x2, x2}[r.intn(3)], v)
+			if r.chance(2, 3) {
+				v += 1 + r.intn(2)
+			} else if v > 1 && r.chance(1, 2) {
+				v--
+			}
+		case x < 3 && !signalled:
+			signalled = true
+			g.op("addremote B 1 0 %d %d -", x2, p2)
+		case x < 8:
+			if g.inflight > 0 {
+				k := g.inflight - 1 - r.intn(min(g.inflight, 3))
+				g.op("deliver %d", k)
+				g.inflight--
+			} else {
+				g.op("adv %d", []int{10, 50}[r.intn(2)])
+			}
+		case x < 9:
+			if g.inflight > 0 {
+				g.op("dup %d", r.intn(g.inflight))
+			}
+		default:
+			g.op("adv %d", []int{10, 50, 200}[r.intn(3)])
+		}
+	}
+	if !signalled {
+		g.op("addremote B 1 0 %d %d -", x2, p2)
+	}
+	for i := 0; i < 6; i++ {
+		for g.inflight > 0 {
+			g.op("deliver 0")
+			g.inflight--
+		}
+		g.op("adv 100")
+	}
 }
